@@ -1,10 +1,11 @@
 (* X86Unw.v - the x86_64 unwinder instance: module data kinds and unwind_frame_impl. *)
-From FH Require Export Word X86 DwarfRow Cfi Unwinder X86Dwarf DwarfCb.
+From FH Require Export Word X86 DwarfRow Cfi Unwinder X86Dwarf DwarfCb Pe.
 Open Scope N_scope.
 
 Inductive mdata :=
 | MNone
-| MDwarf (p : pres) (sec : list fde).
+| MDwarf (p : pres) (sec : list fde)
+| MPe (pe : pe_data).
 
 Definition xmodule := module mdata.
 
@@ -17,6 +18,7 @@ Definition cb_x86 (md : xmodule) (first : bool) (rel : N) (rg : regs) (m : mem)
   | MNone => (CbErr rg, no_eff)
   | MDwarf p sec =>
     cb_dwarf rule regs row_step_x86 uncovered_rule_x86 true p sec (base_svma md) first rel rg m
+  | MPe pe => pe_step true pe rel first rg m
   end.
 
 Definition xunwinder := unwinder mdata.
